@@ -106,6 +106,9 @@ def work_chunk(args):
         agg["runs"] += 1
         agg["steps"] += res.get("steps", 0)
         agg["logsum"] = (agg["logsum"] + int(res["log_digest"], 16) * (2 * i + 1)) % (1 << 64)
+        if os.environ.get("DSIM_TRACE_DIGESTS"):       # debugging aid: one line per run (index, log digest)
+            with open(os.environ["DSIM_TRACE_DIGESTS"], "a") as f:
+                f.write("%s %d %s\n" % (pid, i, res["log_digest"]))
         for k, v in res.get("stats", {}).items():
             agg["stats"][k] = agg["stats"].get(k, 0) + v
         if res.get("nontrivial"):
